@@ -542,4 +542,131 @@ theorem stat_putAt_file_frame {t t' : Node} {p : List Str} {b : Bytes}
     simp [stat, h1, h2]
   · simp [stat, lookup_putAt_incomp h q hq hpq]
 
+/-! ### path strings -/
+
+theorem splitSlash_ne_nil (s : Str) : ∃ seg segs, splitSlash s = seg :: segs := by
+  induction s with
+  | nil => exact ⟨[], [], rfl⟩
+  | cons c r ih =>
+    obtain ⟨seg, segs, h⟩ := ih
+    by_cases hc : c = '/'
+    · exact ⟨[], seg :: segs, by simp [splitSlash, h, hc]⟩
+    · exact ⟨c :: seg, segs, by simp [splitSlash, h, hc]⟩
+
+theorem splitSlash_cons {r : Str} {seg : Str} {segs : List Str} (c : Char)
+    (h : splitSlash r = seg :: segs) :
+    splitSlash (c :: r) = if c = '/' then [] :: seg :: segs else (c :: seg) :: segs := by
+  simp [splitSlash, h]
+
+theorem splitSlash_noslash (b : Str) (h : '/' ∉ b) : splitSlash b = [b] := by
+  induction b with
+  | nil => rfl
+  | cons c r ih =>
+    have hc : c ≠ '/' := fun e => h (by simp [e])
+    have hr : '/' ∉ r := fun e => h (by simp [e])
+    rw [splitSlash_cons c (ih hr)]
+    simp [hc]
+
+theorem splitSlash_append (d rest : Str) :
+    splitSlash (d ++ '/' :: rest) = splitSlash d ++ splitSlash rest := by
+  induction d with
+  | nil =>
+    obtain ⟨seg, segs, h⟩ := splitSlash_ne_nil rest
+    simp [splitSlash_cons '/' h, h, splitSlash]
+  | cons c d' ih =>
+    obtain ⟨seg, segs, h⟩ := splitSlash_ne_nil d'
+    have h2 : splitSlash (d' ++ '/' :: rest) = seg :: (segs ++ splitSlash rest) := by
+      rw [ih, h]; rfl
+    rw [List.cons_append, splitSlash_cons c h2, splitSlash_cons c h]
+    by_cases hc : c = '/' <;> simp [hc]
+
+theorem joinSlash_splitSlash (s : Str) : joinSlash (splitSlash s) = s := by
+  induction s with
+  | nil => rfl
+  | cons c r ih =>
+    obtain ⟨seg, segs, h⟩ := splitSlash_ne_nil r
+    rw [h] at ih
+    rw [splitSlash_cons c h]
+    by_cases hc : c = '/'
+    · simp [hc, joinSlash, ih]
+    · cases segs with
+      | nil => simp [hc, joinSlash] at ih ⊢; exact ih
+      | cons y ys => simp [hc, joinSlash] at ih ⊢; exact ih
+
+theorem plain_not_junk {b : Str} (h : PlainName b) : isJunk b = false := by
+  obtain ⟨h1, _, h3, _⟩ := h
+  cases b with
+  | nil => exact absurd rfl h1
+  | cons c r => simp [isJunk]; intro hc hr; exact h3 (by rw [hc, hr])
+
+theorem basename_join (d b : Str) (h : PlainName b) : basename (d ++ '/' :: b) = some b := by
+  obtain ⟨first, rest, hd⟩ := splitSlash_ne_nil d
+  have hj := plain_not_junk h
+  unfold basename bodySegs
+  rw [splitSlash_append, splitSlash_noslash b h.2.1, hd]
+  simp only [List.cons_append, List.filter_append, List.filter_cons, List.filter_nil, hj,
+    Bool.not_false, ite_true]
+  rw [← List.append_assoc, List.getLast?_concat]
+  have h3 := h.2.2.1
+  have h4 := h.2.2.2
+  simp [h3, h4]
+
+theorem dirname_join (d b : Str) (h : PlainName b) (hd : d ≠ []) (hc : CleanEnd d) :
+    dirname (d ++ '/' :: b) = some d := by
+  obtain ⟨first, rest, hs⟩ := splitSlash_ne_nil d
+  have hj := plain_not_junk h
+  have hrev : ∃ y r, (splitSlash d).reverse = y :: r ∧ (splitSlash d).getLast? = some y := by
+    cases hr : (splitSlash d).reverse with
+    | nil => simp [hs] at hr
+    | cons y r =>
+      refine ⟨y, r, rfl, ?_⟩
+      rw [List.getLast?_eq_head?_reverse, hr]; rfl
+  obtain ⟨y, r, hr, hl⟩ := hrev
+  have hy := hc y hl
+  have hdrop : dropJunk (y :: r) = y :: r := by
+    cases r with
+    | nil => rfl
+    | cons z zs => simp [dropJunk, hy]
+  unfold dirname
+  rw [splitSlash_append, splitSlash_noslash b h.2.1, List.reverse_append, hr]
+  simp only [List.reverse_cons, List.reverse_nil, List.nil_append, List.cons_append, dropJunk, hj]
+  simp only [Bool.false_eq_true, ite_false, hdrop]
+  have : (y :: r).reverse = splitSlash d := by rw [← hr, List.reverse_reverse]
+  rw [this, joinSlash_splitSlash]
+  cases d with
+  | nil => exact absurd rfl hd
+  | cons c cs => simp
+
+theorem squeeze_head (d : Char) (r : Str) : ∃ tl, squeeze (d :: r) = d :: tl := by
+  induction r generalizing d with
+  | nil => exact ⟨[], rfl⟩
+  | cons e r' ih =>
+    by_cases h : d = '/' ∧ e = '/'
+    · obtain ⟨tl, ht⟩ := ih e
+      exact ⟨tl, by simp [squeeze, h.1, h.2] at ht ⊢; exact ht⟩
+    · exact ⟨squeeze (e :: r'), by
+        simp only [squeeze]
+        simp only [Bool.and_eq_true, decide_eq_true_eq]
+        rw [if_neg h]⟩
+
+theorem hasDouble_squeeze (s : Str) : hasDouble (squeeze s) = false := by
+  fun_induction squeeze s with
+  | case1 => rfl
+  | case2 c => rfl
+  | case3 c d r hcd ih => exact ih
+  | case4 c d r hcd ih =>
+    obtain ⟨tl, ht⟩ := squeeze_head d r
+    rw [ht] at ih ⊢
+    simp only [hasDouble, ih, Bool.or_false]
+    simpa using hcd
+
+theorem squeeze_id (s : Str) (h : hasDouble s = false) : squeeze s = s := by
+  fun_induction squeeze s with
+  | case1 => rfl
+  | case2 c => rfl
+  | case3 c d r hcd ih => simp [hasDouble] at h; simp_all
+  | case4 c d r hcd ih =>
+    simp [hasDouble] at h
+    rw [ih h.2]
+
 end Duck.FsTree
